@@ -113,6 +113,37 @@ class NPProxy:
             return out.view(SymArray)
         return _np.zeros(shape, **({} if dtype is None else {"dtype": dtype}), **kw)
 
+    def linspace(self, start, stop, num=50, endpoint=True, retstep=False, dtype=None, axis=0):
+        """numpy.linspace by its documented definition, start + i*(stop-start)/div, last sample = stop.
+        (The real implementation computes i/div in float64 on one of its internal paths, which is
+        not exact for object arrays; its own `step == 0` test would also fork per element.)"""
+        if not (_has_sym(start) or _has_sym(stop)):
+            return _np.linspace(start, stop, num=num, endpoint=endpoint, retstep=retstep, dtype=dtype, axis=axis)
+        if retstep or axis != 0 or dtype is not None:
+            raise HarnessError("np.linspace(retstep/axis/dtype) not modelled")
+        num = int(num)
+        if num < 0:
+            raise ValueError("Number of samples, %s, must be non-negative." % num)
+        self._rec.append(("np.linspace", {"start": start, "stop": stop, "num": num}))
+        st = _lift_obj(_np.array(start, dtype=object, copy=True, ndmin=0))
+        sp = _lift_obj(_np.array(stop, dtype=object, copy=True, ndmin=0))
+        st, sp = _np.broadcast_arrays(st, sp)
+        div = (num - 1) if endpoint else num
+        out = _np.empty((num,) + st.shape, dtype=object)
+        delta = sp - st
+        for i in range(num):
+            if endpoint and i == num - 1 and num > 1:
+                v = sp
+            elif i == 0:
+                v = st
+            else:
+                v = st + delta * i / div
+            if st.ndim == 0:
+                out[i] = v[()] if isinstance(v, _np.ndarray) else v
+            else:
+                out[i, ...] = v
+        return out.view(SymArray)
+
     def isscalar(self, v):
         return isinstance(v, Sym) or _np.isscalar(v)
 
